@@ -27,6 +27,7 @@ func main() {
 	budget := flag.Int("budget", 240, "worker budget seconds")
 	mem := flag.Uint64("mem", 12<<30, "address space cap")
 	replay := flag.String("replay", "", "replay file")
+	bound := flag.Int("bound", -1, "deviation bound override for this pass")
 	list := flag.Bool("list", false, "list property ids")
 	needs := flag.Bool("needs", false, "print the binaries (build variants) the check needs")
 	flag.Parse()
@@ -95,7 +96,7 @@ func main() {
 		syscall.Setrlimit(syscall.RLIMIT_AS, &syscall.Rlimit{Cur: *mem, Max: *mem})
 		var s, n int
 		fmt.Sscanf(*shard, "%d/%d", &s, &n)
-		engine.RunWorker(p, *tier, *variant, s, n, *out, time.Duration(*budget)*time.Second)
+		engine.RunWorker(p, *tier, *variant, s, n, *out, time.Duration(*budget)*time.Second, *bound)
 		return
 	}
 	os.Exit(engine.RunCheck(p, *tier))
